@@ -374,3 +374,119 @@ func c19ManyAbandoned(x *X) {
 func init() {
 	register(&Scenario{Prop: "C19", Name: "c19/many-abandoned", Quick: []Bound{{0, 0}}, Thorough: []Bound{{1, 0}}, Body: c19ManyAbandoned, MaxSteps: 1000000, BudgetQ: 15, BudgetT: 150, MinHB: 1})
 }
+
+// the caller's context buffer after an abandoned call: CallWithContext has returned the context's
+// error, so the buffer is the caller's again - it uses it for its next call (what a relay handler
+// does with the buffer of its own context).  The late response of the abandoned call must not end
+// up in that buffer: the reply of the next call, which may live there, does not change.
+func c19BufferAfterAbandon(x *X) {
+	pipelined := x.Choose(2) == 1
+	sizes := [][2]int{{24, 30}, {30, 24}, {40, 40}, {60, 12}}[x.Choose(4)]
+	race := x.Choose(2) == 1 // the context ends while the response is on its way (decoded by a yielding body codec)
+	so := srvOpts{bufSize: 64}
+	if race {
+		so.codec = yieldBytesCodec
+	}
+	f := newFixture(so, cliOpts{bufSize: 64, pipelining: pipelined})
+	buf := make([]byte, 64)
+	ab := newUcall(0x41, fGate, sizes[0], formCallCtx)
+	ab.hctx = newCtx(buf)
+	next := newUcall(0x61, 0, sizes[1], formCallCtx)
+	next.hctx = newCtx(buf)
+	if race {
+		// one caller: the abandoned (or just completed) call, then at once the next one with the same buffer
+		var abReply []byte
+		vs.GoNamed("caller", func() {
+			ab.issue(f.conn)
+			abReply = append([]byte(nil), ab.reply...) // (it may live in the buffer that the next call uses)
+			next.issue(f.conn)
+		})
+		vs.QuiesceKeep()
+		vs.GoNamed("opener", func() { f.w.open(0x41) })
+		vs.GoNamed("canceller", func() { ab.hctx.cancel(context.DeadlineExceeded) })
+		vs.Quiesce()
+		if !ab.ret || !(ab.err == context.DeadlineExceeded || ab.err == nil && eqBytes(abReply, ab.want())) {
+			x.Fail("C19/race-outcome", "CallWithContext whose context ended while the response was arriving: returned=%v err=%v", ab.ret, ab.err)
+		}
+	} else {
+		ab.spawn(f.conn)
+		vs.Quiesce()
+		ab.hctx.cancel(context.DeadlineExceeded)
+		vs.Quiesce()
+		if !ab.ret || ab.err != context.DeadlineExceeded {
+			x.Fail("C19/call-with-context-hangs", "CallWithContext: returned=%v err=%v after its context was done", ab.ret, ab.err)
+		}
+		next.spawn(f.conn)
+		vs.Quiesce()
+	}
+	if !next.ret || next.err != nil || !eqBytes(next.reply, next.want()) {
+		x.Fail("C19/later-call-failed", "the call after the abandoned one: returned=%v err=%v", next.ret, next.err)
+	}
+	sum := digest(next.reply)
+	f.w.open(0x41) // the abandoned call's handler answers now
+	vs.Quiesce()
+	if digest(next.reply) != sum || !eqBytes(next.reply, next.want()) {
+		x.Fail("C19/late-response-written-into-callers-buffer", "the caller used its context buffer (64 bytes) for a CallWithContext that it abandoned (%d-byte reply outstanding) and then for its next call (%d-byte reply, received intact); when the abandoned call's response arrived it was copied into that buffer: the next call's reply changed from %x to %x", sizes[0], sizes[1], next.want(), next.reply)
+	}
+	x.Outcome("pipelined=%v race=%v sizes=%v ab=%s", pipelined, race, sizes, errStr(ab.err))
+	f.conn.Close()
+	vs.Quiesce()
+}
+
+func init() {
+	register(&Scenario{Prop: "C19", Name: "c19/context-buffer-after-abandon", Quick: []Bound{{0, 0}, {1, 0}, {2, 0}}, Thorough: []Bound{{2, 0}}, Body: c19BufferAfterAbandon, BudgetQ: 15})
+}
+
+// through a Transport, a peer that has gone silent (a half-open connection: nothing the server
+// sends arrives any more, heartbeats included): CallWithContext returns the context's error -
+// cancellation or deadline - as soon as the context is done, and the Transport goes on working
+// (a call to another address, Close).
+func c19SilentPeer(x *X) {
+	cerr := []error{context.Canceled, context.DeadlineExceeded}[x.Choose(2)]
+	lim := [][2]int{{1, 1}, {2, 2}}[x.Choose(2)]
+	t := newTrSys(x, "C19", lim[0], lim[1])
+	t.call("a", formCall) // warm connection
+	t.n.silent["a"] = true
+	for _, c := range t.n.conns {
+		if c.addr == "a" {
+			c.end.p.blackhole[1] = true
+		}
+	}
+	ab := newUcall(0x41, 0, 24, formCallCtx)
+	ab.hctx = newCtx(nil)
+	vs.GoNamed("caller", func() {
+		ab.err = t.tr.CallWithContext(ab.hctx, "a", ab.method, &ab.args, &ab.reply)
+		ab.ret = true
+	})
+	vs.Quiesce()
+	if ab.ret {
+		x.Fail("C19/returned-before-context-done", "CallWithContext to a silent peer returned %v before its context was done", ab.err)
+	}
+	ab.hctx.cancel(cerr)
+	vs.Quiesce()
+	if !ab.ret {
+		x.Fail("C19/call-with-context-hangs/silent-peer", "Transport.CallWithContext did not return although its context is done (%v); the peer has gone silent (it answers nothing, heartbeats included)", cerr)
+	} else if ab.err != cerr {
+		x.Fail("C19/wrong-error", "Transport.CallWithContext returned %v, want %v", ab.err, cerr)
+	}
+	other := false
+	oc := newUcall(0x51, 0, 20, formCall)
+	vs.GoNamed("other", func() { oc.err = t.tr.Call("b", oc.method, &oc.args, &oc.reply); other = true })
+	vs.Quiesce()
+	if !other {
+		x.Fail("C19/transport-blocked/silent-peer", "a call to another address through the same Transport does not return")
+	}
+	closed := false
+	vs.GoNamed("closer", func() { t.tr.Close(); closed = true })
+	vs.Quiesce()
+	if !closed {
+		x.Fail("C19/transport-blocked/silent-peer", "Transport.Close does not return")
+	} else {
+		t.shutdown()
+	}
+	x.Outcome("err=%v lim=%v ret=%v", cerr, lim, ab.ret)
+}
+
+func init() {
+	register(&Scenario{Prop: "C19", Name: "c19/transport-silent-peer", Quick: []Bound{{0, 0}, {1, 0}}, Thorough: []Bound{{2, 0}}, Body: c19SilentPeer, MaxSteps: 200000, BudgetQ: 15})
+}
